@@ -147,7 +147,13 @@ class Block(Entity):
         tags = self._h5group.open_group("tags")
         if name in tags:
             raise exceptions.DuplicateName("create_tag")
-        tag = Tag.create_new(self.file, self, tags, name, type_, position)
+        try:
+            tag = Tag.create_new(self.file, self, tags, name, type_, position)
+        except Exception:
+            # a refused creation must not leave a half-created tag behind
+            if name in tags:
+                tags.delete(name)
+            raise
         return tag
 
     # Source
@@ -250,12 +256,18 @@ class Block(Entity):
             raise exceptions.DuplicateName("create_data_array")
         if compression == Compression.Auto:
             compression = self._compr
-        da = DataArray.create_new(self.file, self, data_arrays, name, array_type,
-                                  dtype, shape, compression)
-        if data is not None:
-            da.write_direct(data)
-        da.unit = unit
-        da.label = label
+        try:
+            da = DataArray.create_new(self.file, self, data_arrays, name,
+                                      array_type, dtype, shape, compression)
+            if data is not None:
+                da.write_direct(data)
+            da.unit = unit
+            da.label = label
+        except Exception:
+            # a refused creation must not leave a half-created array behind
+            if name in data_arrays:
+                data_arrays.delete(name)
+            raise
         return da
 
     def create_data_frame(self, name="", type_="", col_dict=None,
